@@ -435,5 +435,31 @@ func runC06conc(c *core.RunCtx) {
 			return
 		}
 	}
+	// all positions survive close and reopen: what the group and the queue persisted while consumer, acker and
+	// housekeeping overlapped must be what they had in memory when everything came to rest
+	wantCons, wantAck, wantQAck, wantApp := cg.ConsumedSeq(), cg.AcknowledgedSeq(), q.AcknowledgedSeq(), q.AppendedSeq()
 	fq.Close()
+	sim.Fault("close-reopen")
+	fq2, err := queue.NewFanOutQueue(dir, PageSize)
+	if err != nil {
+		c.Violate("C06/reopen-failed", "NewFanOutQueue after the concurrent phase: %v", err)
+		return
+	}
+	defer fq2.Close()
+	cg2, err := fq2.GetOrCreateConsumerGroup("g0")
+	if err != nil {
+		c.Violate("C06/reopen-failed", "group after the concurrent phase: %v", err)
+		return
+	}
+	// the queue ack is persisted by Sync only: it may lag, never lead; a reopened group never starts below it
+	if gotQ := fq2.Queue().AcknowledgedSeq(); gotQ > wantQAck {
+		c.Violate("C06/position-mismatch", "concurrent, after reopen: queue ack %d, it was %d", gotQ, wantQAck)
+		return
+	}
+	if fq2.Queue().AppendedSeq() != wantApp || cg2.ConsumedSeq() != wantCons || cg2.AcknowledgedSeq() != wantAck {
+		c.Violate("C06/position-mismatch", "concurrent, after reopen: appended=%d consumed=%d acknowledged=%d, before the close they were %d/%d/%d",
+			fq2.Queue().AppendedSeq(), cg2.ConsumedSeq(), cg2.AcknowledgedSeq(), wantApp, wantCons, wantAck)
+		return
+	}
+	sim.Probe("concurrent-reopen-checked")
 }
